@@ -285,6 +285,72 @@ def _plausible(gen, vt, victim_is_server, stub):
     return []
 
 
+def long_frames(gen, vt, victim_is_server, stub):
+    """Churn for the LONG profile: mostly frames that keep the connection alive
+    while opening, closing and *referencing* streams in every state."""
+    rng = gen.rng
+    live = [s for s in vt.streams.values() if s.state != 'closed']
+    r = rng.random()
+    mf = vt.mine[C.S_MAX_FRAME_SIZE]
+    lim = vt.mine.get(C.S_MAX_CONCURRENT_STREAMS) or 100
+    if victim_is_server and (r < 0.28) and len(live) < min(lim, 60) - 1:
+        sid = vt.hi_peer + 2 if vt.hi_peer else 1
+        if sid <= MAXID:
+            hl = [(':method', 'GET'), (':scheme', 'https'), (':authority', 'a'), (':path', '/%d' % (sid % 7))]
+            if rng.random() < 0.1:
+                hl.append(('x-pad', 'y' * rng.choice([10, 1000, 3000])))
+            if rng.random() < 0.0005:
+                hl.append(('x-over', 'y' * 70000))       # above any MAX_HEADER_LIST_SIZE used here
+            frag = _enc(hl)
+            es = rng.random() < 0.5
+            if len(frag) > mf:
+                parts = [frag[i:i + mf] for i in range(0, len(frag), mf)]
+                fr = [C.mk_headers(sid, parts[0], es, False)]
+                fr += [C.mk_continuation(sid, p, i == len(parts) - 2) for i, p in enumerate(parts[1:])]
+                return fr
+            if rng.random() < 0.1 and len(frag) > 4:
+                parts = _split(rng, frag, rng.choice([2, 3, 5]))
+                fr = [C.mk_headers(sid, parts[0], es, False)]
+                fr += [C.mk_continuation(sid, p, i == len(parts) - 2) for i, p in enumerate(parts[1:])]
+                return fr
+            return [C.mk_headers(sid, frag, es, True)]
+    if r < 0.5 and live:
+        st = rng.choice(live)
+        return [C.mk_rst(st.sid, rng.choice([0, 8]))]
+    if r < 0.58 and live:
+        cands = [s for s in live if s.state in ('open', 'hcL') and s.recv == 'final']
+        if cands:
+            st = rng.choice(cands)
+            room = min(vt.conn_recv, st.recv_win, mf, 200)
+            if room >= 0:
+                return [C.mk_data(st.sid, b'z' * room, rng.random() < 0.5)]
+    # frames that reference idle / closed / never-used ids and must allocate nothing
+    pool = [s.sid for s in vt.streams.values() if s.state == 'closed'][-20:] + \
+           [vt.hi_peer + 2, vt.hi_peer + 20, vt.hi_mine + 2, 2 ** 31 - 1, 2 ** 30 + 1, 7, 8]
+    sid = rng.choice(pool) or 1
+    k = rng.randrange(8)
+    if k <= 2:
+        dep = rng.choice([0, 1, 3, sid + 2])
+        return [C.mk_priority(sid, dep if dep != sid else 0, rng.random() < 0.5, rng.randrange(256))]
+    if k == 3:
+        st = vt.get(sid)
+        if st is not None and st.state == 'closed':
+            return [C.mk_window_update(sid, rng.choice([1, 1000]))]
+        return [C.mk_priority(sid, 0, False, 1)]
+    if k == 4:
+        st = vt.get(sid)
+        if st is not None:      # RST_STREAM on a closed stream is ignored
+            return [C.mk_rst(sid, 0)]
+        return [C.mk_priority(sid, 0, True, 7)]
+    if k == 5:
+        return [C.mk(rng.choice([11, 12, 0x42, 0xfe]), rng.randrange(256), rng.choice([0, sid]), b'x' * rng.randrange(0, 30))]
+    if k == 6:
+        return [C.mk_ping(bytes(rng.randrange(256) for _ in range(8)), rng.random() < 0.3)]
+    if not vt.any_headers_recv and not vt.any_headers_sent:
+        return [C.mk_ping(b'12345678', False)]
+    return [C.mk_altsvc(rng.choice([0, sid]), b'', b'h2=":1"')]
+
+
 def _split(rng, data, n):
     if n <= 1 or not data:
         return [data]
